@@ -567,7 +567,10 @@ pub fn run_on_this_thread(plan: &Plan, keep_trace: bool) -> RunOutput {
                     sh.viol.borrow_mut().push(Violation { property: "C11", rule: "audit", at, detail: l });
                 }
             }
-            if !sh.viol.borrow().is_empty() {
+            // like the core engine: under a check, only a violation of the property being checked
+            // ends the run (an audit line describes latent damage whose symptom may come later)
+            let stop_on = knobs.stop_on.as_str();
+            if sh.viol.borrow().iter().any(|v| stop_on.is_empty() || v.property == stop_on || (stop_on != "C11" && v.property != "C11")) {
                 break;
             }
         }
